@@ -33,11 +33,13 @@ def expected(t, rows, like_fold=True):
 
 
 def schema_of(name):
-    return dict(scalar.SCHEMA, **scalar.EXTRA_SCHEMA).get(name)
+    t = dict(scalar.SCHEMA, **scalar.EXTRA_SCHEMA).get(name)
+    return "float" if t == "decimal" else t
 
 
 def typed_ok(t):
-    return welltyped(t, schema_of) and static_type(t, dict(scalar.SCHEMA, **scalar.EXTRA_SCHEMA)) == "bool"
+    sch = {k: ("float" if v == "decimal" else v) for k, v in dict(scalar.SCHEMA, **scalar.EXTRA_SCHEMA).items()}
+    return welltyped(t, schema_of) and static_type(t, sch) == "bool"
 
 
 def compare(t, rows, select, like_fold=True):
